@@ -119,7 +119,7 @@ func runC17Sio(c *sim.Ctx, t *testing.T) {
 				case r := <-cp.out:
 					nres++
 					lg.Add(sim.Ev{Kind: "recv", N: int64(nres)}) // the loop parks right after its send
-					sim.Yield("h#consumed")                       // the sender woke too: let the scheduler order us
+					sim.Yield("h#consumed")                      // the sender woke too: let the scheduler order us
 					// what any coupling does with a result: render it
 					js, err := json.Marshal(r)
 					lg.Add(sim.Ev{Kind: "result", N: int64(nres), Val: string(js), Err: vfErr(err)})
